@@ -151,6 +151,9 @@ func runCheck(prop, tier string, seed int) int {
 			toolErrs = append(toolErrs, r.Err.Error())
 			continue
 		}
+		for _, se := range r.Soft {
+			toolErrs = append(toolErrs, r.Key+": "+se)
+		}
 		reach := 0
 		nret := 0
 		anyFailed := false
